@@ -103,10 +103,21 @@ Definition m_has_next (c : defer_case) : bool :=
 
 Definition defer_monitor (c : defer_case) : bool :=
   m_groups_once c && m_order c && m_merge c && m_errors c && m_has_next c.
-(** everything except what the known nested-ordering finding breaks (arrival order and, through it, the merge) *)
+(** everything except what the known nested-ordering finding breaks: the OBSERVED payloads are first put in
+    parent-before-child order (stable insertion by path length), then the order and merge clauses are asked of
+    that sequence - so a payload with wrong content still fails *)
+Fixpoint insert_by_depth (o : obs_payload) (l : list obs_payload) {struct l} : list obs_payload :=
+  match l with
+  | [] => [o]
+  | x :: r => if Nat.ltb (List.length (op_path o)) (List.length (op_path x)) then o :: x :: r else x :: insert_by_depth o r
+  end.
+Fixpoint parents_first (l : list obs_payload) {struct l} : list obs_payload :=
+  match l with [] => [] | o :: r => insert_by_depth o (parents_first r) end.
+Definition reordered (c : defer_case) : defer_case :=
+  {| dc_exec := dc_exec c;
+     dc_payloads := match dc_payloads c with o :: r => o :: parents_first r | [] => [] end |}.
 Definition defer_monitor_modulo_order (c : defer_case) : bool :=
-  m_groups_once c && m_errors c && m_has_next c
-  && jt_eqb (merge_payloads (model_payloads c)) (expected_content c).
+  m_groups_once c && m_errors c && m_has_next c && m_order (reordered c) && m_merge (reordered c).
 (** KEPT FINDING "orphan group": a group is started when its object is marshalled; if an ancestor or sibling
     failure later nulls that object away, the group is delivered all the same, for a path no payload ever
     delivers.  [is_orphan]: the payload's path does not lead to an object in the final content. *)
